@@ -31,7 +31,7 @@ type State struct {
 	X     [3][16]byte
 	_     [16]byte
 	Y     [6][32]byte
-	Flags [8]byte // ZF, CF, signed-less (SF != OF)
+	Flags [8]byte // ZF, CF, signed-less (SF != OF), jump taken, [4] = AVX: the stub may touch the YMM registers
 }
 
 type form struct {
@@ -47,6 +47,7 @@ var (
 	flagReplay = flag.String("replay", "", "")
 	flagProp   = flag.String("prop", "C13", "")
 	flagDriver = flag.String("driver", "", "")
+	flagNoAVX  = flag.Bool("noavx", false, "behave as on a CPU without AVX2 (the stubs then leave the YMM registers alone; AVX forms are skipped)")
 )
 
 func interesting(rng *rand.Rand) uint64 {
@@ -151,15 +152,17 @@ func isAVX(text string) bool { return strings.HasPrefix(text, "V") }
 func main() {
 	flag.Parse()
 	start := time.Now()
-	if !cpu.X86.HasAVX2 || !cpu.X86.HasPOPCNT {
-		// the stubs contain AVX2 / POPCNT instructions: nothing can be validated on this machine
-		fmt.Println("asmstep: CPU without AVX2/POPCNT: instruction forms not validated on this machine")
-		if *flagOut != "" {
-			data, _ := json.Marshal(map[string]any{"coverage": map[string]any{"evaluations": 0, "skipped": "no AVX2/POPCNT"}})
-			os.WriteFile(*flagOut, data, 0o644)
+	haveAVX, havePOPCNT := cpu.X86.HasAVX2 && !*flagNoAVX, cpu.X86.HasPOPCNT
+	usable := func(text string) bool {
+		if strings.HasPrefix(text, "V") && !haveAVX {
+			return false
 		}
-		return
+		if strings.HasPrefix(text, "POPCNT") && !havePOPCNT {
+			return false
+		}
+		return true
 	}
+	skipped := 0
 	per := 400
 	if *flagTier == "thorough" {
 		per = 20000
@@ -171,14 +174,29 @@ func main() {
 		in   State
 	}
 	var cases []tcase
+	mk := func() State {
+		s := randState(rng)
+		if haveAVX {
+			s.Flags[4] = 1
+		}
+		return s
+	}
 	for fi := range forms {
+		if !usable(forms[fi].Text) {
+			skipped++
+			continue
+		}
 		for k := 0; k < per; k++ {
-			cases = append(cases, tcase{fi, false, randState(rng)})
+			cases = append(cases, tcase{fi, false, mk()})
 		}
 	}
 	for fi := range jumps {
+		if !usable(jumps[fi].Text) {
+			skipped++
+			continue
+		}
 		for k := 0; k < per; k++ {
-			cases = append(cases, tcase{fi, true, randState(rng)})
+			cases = append(cases, tcase{fi, true, mk()})
 		}
 	}
 	cmd := exec.Command(*flagDriver)
@@ -273,6 +291,8 @@ func main() {
 		"distinct_nontrivial": len(cases),
 		"instruction_forms":   len(forms),
 		"compare_jump_pairs":  len(jumps),
+		"forms_skipped_cpu":   skipped,
+		"cpu":                 map[string]bool{"avx2": haveAVX, "popcnt": havePOPCNT},
 		"states_per_form":     per,
 		"rule":                "(i) every distinct register-to-register instruction form of the five kernel bodies and six ABI wrappers (text taken from the repository's .s files) x random machine states (biased: 0, -1, 2^32 and 2^63 neighbourhoods, small lengths, equal/adjacent compare operands, lanes from {0,0x80,0xFF,...}, equal vectors): hardware vs Asm.step; compared: the 11 general registers, XMM lanes (SSE forms) or YMM lanes (AVX forms), and the flags the model defines for the mnemonic; (ii) every distinct (flag-setting instruction, conditional jump that immediately follows it in the source) pair x the same states: is the jump taken (SETcc of the jump's condition on the CPU vs Asm.step of the setter then of the jump)",
 		"samples":             []any{map[string]any{"form": forms[0].Text, "term": forms[0].Term}},
